@@ -11,6 +11,10 @@ import sp_common as spc
 import tlc
 
 
+SOAP = ('<soapenv:Envelope xmlns:soapenv="http://schemas.xmlsoap.org/soap/envelope/"><soapenv:Body>%s</soapenv:Body>'
+        '</soapenv:Envelope>')
+
+
 def build_response(scn):
     body = ''
     if scn['asrt'] == 'signed':
@@ -38,8 +42,32 @@ def replay(case):
     if scn['kind'] == 'response':
         sp = spc.sp_for(want_response_signed=False, want_assertions_signed=True, want_assertions_or_response_signed=False)
         doc = build_response(scn)
-        obs = spc.observe(sp, doc, env.BINDING_POST, {'id1': '/'})
+        if scn.get('via') == 'soap':
+            obs = spc.observe(sp, None, env.BINDING_SOAP, {'id1': '/'}, encoded=SOAP % doc)
+        else:
+            obs = spc.observe(sp, doc, env.BINDING_POST, {'id1': '/'})
         obs['doc'] = doc
+        return obs
+    if scn['kind'] == 'logout_response':
+        sp = spc.sp_for(want_response_signed=False, want_assertions_signed=True, want_assertions_or_response_signed=False,
+                        metadata=[env.idp_metadata(slo=env.IDP1_SLO)])
+        doc = ('<samlp:LogoutResponse xmlns:samlp="%s" xmlns:saml="%s" ID="lr1" Version="%s" IssueInstant="%s" InResponseTo="id1">'
+               '<saml:Issuer>%s</saml:Issuer>%s</samlp:LogoutResponse>'
+               % (sb.NS_SAMLP, sb.NS_SAML, scn['version'], env.ts(spc.now() - 5), env.IDP1,
+                  sb.status_xml(scn['top'], None if scn['second'] == 'absent' else scn['second'], 'something went wrong' if scn['msg'] else None)))
+        obs = {'doc': doc, 'exc': None, 'calls': [], 'verdict': 'reject'}
+        try:
+            if scn['via'] == 'soap':
+                r = sp.parse_logout_request_response(SOAP % doc, env.BINDING_SOAP)
+            else:
+                r = sp.parse_logout_request_response(sb.deflate_b64(doc), env.BINDING_REDIRECT)
+            if r is not None:
+                obs['verdict'] = 'accept'
+            else:
+                obs['exc'] = 'None'
+        except Exception as exc:
+            obs['exc'] = type(exc).__name__
+            obs['msg'] = str(exc)[:200]
         return obs
     idp = spc.idp_for()
     doc = sb.authn_request(issuer=env.SP, destination=env.IDP1_SSO, acs_url=env.SP_ACS_POST, binding=env.BINDING_POST,
